@@ -346,3 +346,385 @@ def oracle(ctx, widened):
                      {"e": e, "M": M, "true_E_or_H": EH, "start_value": start_value(e, M) if hyper else None}, observed=got, expected=EH)
     out.sample({"checks": "mean->cartesian vs textbook, definition truth of 9 forms, 10x10 round trips, infos relations, M2E residual"})
     return out
+
+
+# ---------------------------------------------------------------- extract: formulas and tables regenerated from /repo
+
+SHORT = {"cartesian": "Cart", "keplerian": "Kepl", "keplerian_eccentric": "Ecc", "keplerian_mean": "Mean", "keplerian_circular": "Circ",
+         "keplerian_mean_circular": "Mcirc", "tle": "Tle", "spherical": "Sph", "equinoctial": "Equi", "cylindrical": "Cyl"}
+CARGS = ["c0", "c1", "c2", "c3", "c4", "c5"]
+MU_CONSTS = {"body.µ": "mu", "body.μ": "mu", "body.mu": "mu", "body": "body_unused"}
+
+M2E_EDGE_SRC = "a, e, i, Ω, ω, M = coord\nE = cls.M2E(e, M)\nreturn np.array([a, e, i, Ω, ω, E], dtype=float)\n"
+
+
+def edge_lean_name(pyname):
+    a, b = pyname[1:].split("_to_")
+    return SHORT[a][0].lower() + SHORT[a][1:] + "To" + SHORT[b], a, b
+
+
+def rename_ast(nodes, mapping):
+    class Rn(ast.NodeTransformer):
+        def visit_Name(self, n):
+            return ast.copy_location(ast.Name(id=mapping.get(n.id, n.id), ctx=n.ctx), n)
+
+        def visit_arg(self, n):
+            return ast.copy_location(ast.arg(arg=mapping.get(n.arg, n.arg), annotation=None), n)
+
+        def visit_FunctionDef(self, n):
+            self.generic_visit(n)
+            n.name = mapping.get(n.name, n.name)
+            return n
+    import copy
+    return [Rn().visit(copy.deepcopy(n)) for n in nodes]
+
+
+def m2e_pieces(tree):
+    """Form.M2E: the start-value selection and the Newton update are translated; the loop itself
+    (`X1 = next(X); while abs(X1 - X) >= tol: X = X1; X1 = next(X); return X1`) is checked to have exactly
+    this shape and is written with a fuel argument in lean/templates/Forms.tpl"""
+    fn = py2lean.find_function(tree, "Form.M2E")
+    body = [s for s in fn.body if not (isinstance(s, ast.Expr) and isinstance(s.value, ast.Constant))]
+    if not (len(body) == 2 and isinstance(body[0], ast.Assign) and body[0].targets[0].id == "tol" and isinstance(body[1], ast.If)):
+        raise py2lean.Untranslatable("M2E: unexpected top-level shape")
+    tol = py2lean.translate_expr(body[0].value)
+    top = body[1]
+    test = py2lean.translate_expr(top.test)
+    out = {}
+    shapes = []
+    for tag, blk, var, nxt in (("E", top.body, "E", "next_E"), ("H", top.orelse, "H", "next_H")):
+        if not (len(blk) == 5 and isinstance(blk[0], ast.If) and isinstance(blk[1], ast.FunctionDef) and blk[1].name == nxt
+                and isinstance(blk[2], ast.Assign) and isinstance(blk[3], ast.While) and isinstance(blk[4], ast.Return)):
+            raise py2lean.Untranslatable(f"M2E: unexpected shape of the {tag} branch")
+        tr = py2lean.TrFn()
+        tr.defined |= {"e", "M"}
+        out["start" + tag] = tr.stmts([blk[0], ast.Return(value=ast.Name(id=var, ctx=ast.Load()))])
+        nf = blk[1]
+        if [a.arg for a in nf.args.args] != [var, "e", "M"] or len(nf.body) != 1 or not isinstance(nf.body[0], ast.Return):
+            raise py2lean.Untranslatable("M2E: unexpected Newton update function")
+        out["next" + tag] = py2lean.translate_expr(rename_ast([nf.body[0].value], {var: "X"})[0])
+        shapes.append(ast.dump(ast.Module(body=rename_ast(blk[2:], {var: "X", var + "1": "X1", nxt: "next_X"}), type_ignores=[])))
+    expected = ast.dump(ast.parse("X1 = next_X(X, e, M)\nwhile abs(X1 - X) >= tol:\n    X = X1\n    X1 = next_X(X, e, M)\nreturn X1\n"))
+    for sh in shapes:
+        if sh != expected:
+            raise py2lean.Untranslatable("M2E: the iteration loop no longer has the modelled shape")
+    out["tol"], out["test"] = tol, test
+    return out
+
+
+INFOS = [("energy", "infosEnergy"), ("n", "infosN"), ("period", "infosPeriod"), ("apocenter", "infosApocenter"), ("pericenter", "infosPericenter"),
+         ("v", "infosV"), ("va", "infosVa"), ("vp", "infosVp"), ("vinf", "infosVinf"), ("dinf", "infosDinf"), ("cos_fpa", "infosCosFpa"),
+         ("sin_fpa", "infosSinFpa"), ("fpa", "infosFpa")]
+INFOS_ARGS = "mu r a e nu"
+
+
+def infos_defs(tree):
+    consts = {"self.mu": "mu", "self.r": "r", "self.kep.a": "a", "self.kep.e": "e", "self.kep.nu": "nu", "self.kep.ν": "nu"}
+    lines = []
+    guards = {}
+    for py, ln in INFOS:
+        fn = py2lean.find_function(tree, "Infos." + py)
+        body = [s for s in fn.body if not (isinstance(s, ast.Expr) and isinstance(s.value, ast.Constant))]
+        guard = None
+        if len(body) == 2 and isinstance(body[0], ast.If) and isinstance(body[0].body[0], ast.Raise):
+            guard = ast.unparse(body[0].test)
+            body = body[1:]
+        if len(body) != 1 or not isinstance(body[0], ast.Return):
+            raise py2lean.Untranslatable(f"Infos.{py}: not a single return")
+        v = body[0].value
+        if isinstance(v, ast.Call) and py2lean.Tr().dotted(v.func) == "timedelta":
+            if len(v.keywords) != 1 or v.keywords[0].arg != "seconds" or v.args:
+                raise py2lean.Untranslatable("Infos.period: timedelta call")
+            v = v.keywords[0].value
+        text = py2lean.translate_expr(v, consts=consts)
+        lines.append(f"/-- `Infos.{py}`" + (f" (raises ValueError if `{guard}`)" if guard else "") + f" -/\ndef {ln} ({INFOS_ARGS} : R) : R :=\n  {text}\n")
+        guards[py] = guard
+        consts["self." + py] = f"({ln} {INFOS_ARGS})"
+        if py == "apocenter":
+            consts["self.ra"] = consts["self.apocenter"]
+        if py == "pericenter":
+            consts["self.rp"] = consts["self.pericenter"]
+    # ra / rp are plain aliases
+    for alias, target in (("ra", "apocenter"), ("rp", "pericenter")):
+        fn = py2lean.find_function(tree, "Infos." + alias)
+        ret = [s for s in fn.body if isinstance(s, ast.Return)][0]
+        if ast.unparse(ret.value) != "self." + target:
+            raise py2lean.Untranslatable(f"Infos.{alias} is no longer an alias of {target}")
+    return "\n".join(lines), guards
+
+
+def lean_str_list(xs):
+    return "[" + ", ".join('"' + x + '"' for x in xs) + "]"
+
+
+def extract(ctx):
+    src = open(FORMS_PY).read()
+    tree = ast.parse(src)
+    cls = py2lean.find_function(tree, "Form")
+    parts = []
+    edges = []
+    for f in cls.body:
+        if isinstance(f, ast.FunctionDef) and f.name.startswith("_") and "_to_" in f.name:
+            ln, a, b = edge_lean_name(f.name)
+            if f.name == "_keplerian_mean_to_keplerian_eccentric":
+                stm = [s for s in f.body if not (isinstance(s, ast.Expr) and isinstance(s.value, ast.Constant))]
+                if [ast.dump(s) for s in stm] != [ast.dump(s) for s in ast.parse(M2E_EDGE_SRC).body]:
+                    raise py2lean.Untranslatable("_keplerian_mean_to_keplerian_eccentric no longer has the modelled shape (a,e,i,Ω,ω,M2E(e,M))")
+                edges.append((ln, a, b, False))
+                continue
+            parts.append(f"/-- `Form.{f.name}` (forms.py line {f.lineno}) -/\n" +
+                         py2lean.translate_function(FORMS_PY, "Form." + f.name, ln, vec_params={"coord": CARGS}, consts=MU_CONSTS, extra_args=["mu"], tree=tree, ret_type="List R"))
+            edges.append((ln, a, b, True))
+    m = m2e_pieces(tree)
+    parts.append(f"/-- `tol` of `Form.M2E` -/\ndef m2eTol : R := {m['tol']}\n")
+    parts.append("/-- start value of the Newton iteration in `Form.M2E` (all four branches) -/\ndef m2eStart (e M : R) : R :=\n  if " + m["test"] + " then\n" +
+                 py2lean.indent(m["startE"], 4) + "\n  else\n" + py2lean.indent(m["startH"], 4) + "\n")
+    parts.append("/-- `next_E` / `next_H` of `Form.M2E` -/\ndef m2eNext (X e M : R) : R :=\n  if " + m["test"] + " then " + m["nextE"] + "\n  else " + m["nextH"] + "\n")
+    parts.append("/-- the `while` test of `Form.M2E` -/\ndef m2eContinue {α : Type} (X1 X : R) (yes no : α) : α :=\n  if (absR (X1 - X)) ≥ m2eTol then yes else no\n")
+    svtree = ast.parse(open(SV_PY).read())
+    itext, guards = infos_defs(svtree)
+    parts.append(itext)
+    ctx.infos_guards = guards
+    body = "\n".join(parts)
+    ch = py2lean.instantiate(core.LEAN, "Forms", body, "beyond/orbits/forms.py, beyond/orbits/statevector.py")
+    # tables: live objects (param names, aliases, cache) + the edge methods found in the AST
+    import importlib
+    forms = importlib.import_module("beyond.orbits.forms")
+    names = [n for n in _graph_names()]
+    t = ["/- GENERATED by harness/props/C01.py from beyond/orbits/forms.py — do not edit. -/", "namespace BeyondVerif.Generated"]
+    t.append("/-- `Form.param_names`, in the node order of `formsNames` (Generated/Graphs.lean) -/")
+    t.append("def formsParamNames : List (String × List String) := [" + ", ".join(f'("{n}", {lean_str_list(forms._cache[n].param_names)})' for n in names) + "]")
+    t.append("/-- `Form.alt` -/")
+    t.append("def formsAlt : List (String × String) := [" + ", ".join(f'("{k}", "{v}")' for k, v in forms.Form.alt.items()) + "]")
+    t.append("/-- `forms._cache`: accepted form names -> canonical name -/")
+    t.append("def formsCache : List (String × String) := [" + ", ".join(f'("{k}", "{v.name}")' for k, v in forms._cache.items()) + "]")
+    t.append("/-- the `_a_to_b` conversion methods defined on `Form` (AST), as pairs of indices into `formsNames` -/")
+    t.append("def formsEdgeMethods : List (Nat × Nat) := [" + ", ".join(f"({names.index(a)}, {names.index(b)})" for _, a, b, _ in edges) + "]")
+    t.append("end BeyondVerif.Generated")
+    if core.write_if_changed(os.path.join(core.LEAN, "BeyondVerif", "Generated", "FormTables.lean"), "\n".join(t) + "\n"):
+        ch.append("Generated/FormTables.lean")
+    ctx.edges = edges
+    ch += instantiate.main()
+    return ch
+
+
+def _graph_names():
+    """node order of the forms graph as recorded in Generated/Graphs.lean (written by C20's extract)"""
+    import re
+    txt = open(os.path.join(core.LEAN, "BeyondVerif", "Generated", "Graphs.lean")).read()
+    m = re.search(r"def formsNames : List String := \[(.*?)\]", txt)
+    return [x.strip().strip('"') for x in m.group(1).split(",")]
+
+
+# ---------------------------------------------------------------- correspondence: compiled Lean model vs the real edge methods
+
+ANGLE_IDX = {"keplerian": (3, 4, 5), "keplerian_eccentric": (3, 4, 5), "keplerian_mean": (3, 4, 5), "keplerian_circular": (4, 5),
+             "keplerian_mean_circular": (4, 5), "equinoctial": (5,), "tle": (1, 3, 4), "spherical": (1,), "cylindrical": (1,), "cartesian": ()}
+
+
+def source_coords(mu, hyper, a, e, i, Om, om, M, EH, nu, rng):
+    """the same orbit written in each of the ten forms by formulas local to this harness"""
+    c = truth_cartesian(mu, a, e, i, Om, om, nu)
+    x, y, z, vx, vy, vz = c
+    r = math.sqrt(x * x + y * y + z * z)
+    rho2 = x * x + y * y
+    rho = math.sqrt(rho2)
+    wrap = (lambda t: t) if rng.random() < 0.5 else (lambda t: t % TWO_PI)
+    d = {
+        "cartesian": list(c),
+        "keplerian": [a, e, i, Om, om, nu if rng.random() < 0.5 else nu % TWO_PI],
+        "keplerian_eccentric": [a, e, i, Om, om, EH],
+        "keplerian_mean": [a, e, i, Om, om, M],
+        "keplerian_circular": [a, e * math.cos(om), e * math.sin(om), i, Om, wrap(om + nu)],
+        "keplerian_mean_circular": [a, e * math.cos(om), e * math.sin(om), i, Om, wrap(om + M) if not hyper else om + M],
+        "equinoctial": [a, e * math.cos(Om + om), e * math.sin(Om + om), math.tan(i / 2) * math.cos(Om), math.tan(i / 2) * math.sin(Om), wrap(Om + om + nu)],
+        "spherical": [r, math.atan2(y, x), math.asin(z / r), (x * vx + y * vy + z * vz) / r, (x * vy - y * vx) / rho2,
+                      (vz * rho2 - z * (x * vx + y * vy)) / (r * r * rho)],
+        "cylindrical": [rho, math.atan2(y, x), z, (x * vx + y * vy) / rho, (x * vy - y * vx) / rho2, vz],
+    }
+    if not hyper:
+        d["tle"] = [i, Om, e, om, M, math.sqrt(mu / a ** 3)]
+    return d
+
+
+def out_scales(form, mu, a, c):
+    r = math.sqrt(c[0] ** 2 + c[1] ** 2 + c[2] ** 2)
+    v = math.sqrt(c[3] ** 2 + c[4] ** 2 + c[5] ** 2)
+    if form == "cartesian":
+        return [r, r, r, v, v, v]
+    if form == "spherical":
+        return [r, 1, 1, v, v / r, v / r]
+    if form == "cylindrical":
+        return [r, 1, r, v, v / r, v]
+    if form == "tle":
+        return [1, 1, 1, 1, 1, math.sqrt(mu / abs(a) ** 3)]
+    return [abs(a), 1, 1, 1, 1, 1]
+
+
+def tree_path(names, hist, s, t):
+    adj = {n: [] for n in range(len(names))}
+    for a, b in hist:
+        adj[a].append(b); adj[b].append(a)
+    prev = {s: None}
+    todo = [s]
+    while todo:
+        u = todo.pop(0)
+        for w in adj[u]:
+            if w not in prev:
+                prev[w] = u; todo.append(w)
+    p = [t]
+    while p[-1] != s:
+        p.append(prev[p[-1]])
+    return p[::-1]
+
+
+def _graph_hist():
+    import re
+    txt = open(os.path.join(core.LEAN, "BeyondVerif", "Generated", "Graphs.lean")).read()
+    m = re.search(r"def formsHist : List \(Nat × Nat\) := \[(.*?)\]\n", txt)
+    return [tuple(int(v) for v in p.split(",")) for p in re.findall(r"\((\d+, \d+)\)", m.group(1))]
+
+
+class FakeBody:
+    def __init__(self, mu):
+        self.mu = mu
+        setattr(self, "µ", mu)
+        setattr(self, "μ", mu)
+
+
+def cmp_vec(out, fam, what, inp, real, model, form, scales, hyper, cond=1.0):
+    for idx in range(6):
+        a, b = float(real[idx]), float(model[idx])
+        if not (math.isfinite(a) and math.isfinite(b)):
+            ok = (not math.isfinite(a)) and (not math.isfinite(b))
+        elif idx in ANGLE_IDX[form] and not (hyper and idx == 5 and form in ("keplerian_eccentric", "keplerian_mean", "keplerian_mean_circular")):
+            ok = angdiff(a, b) <= 1e-9 * cond
+        else:
+            ok = abs(a - b) <= 1e-9 * cond * max(abs(a), abs(b), scales[idx] if idx < 3 or form in ("cartesian", "spherical", "cylindrical", "tle") else 1.0)
+        if not ok:
+            out.fail(fam, f"{what}: component {idx} differs between the real code and the Lean model", inp, observed=[float(v) for v in real], expected=list(model))
+            return False
+    return True
+
+
+def correspondence(ctx):
+    import numpy as np
+    out = Outcome()
+    rng = ctx.rng
+    from beyond.orbits.forms import Form
+    from beyond.orbits import StateVector
+    from beyond.dates import Date
+    edges = getattr(ctx, "edges", None)
+    if edges is None:
+        raise RuntimeError("extract did not run")
+    frs = frames()
+    names = _graph_names()
+    hist = _graph_hist()
+    date = Date(2020, 1, 1)
+    reqs, meta = [], []
+    n_orbits = ctx.n(2500, 40000)
+    for it in range(n_orbits):
+        k, hyper, a, e, i, Om, om = gen_elements(rng, conic=(it % 2 == 1))
+        mu = frs[k].center.body.mu
+        M, EH = gen_anomaly(rng, hyper, e)
+        nu = nu_from_anomaly(hyper, e, EH)
+        src = source_coords(mu, hyper, a, e, i, Om, om, M, EH, nu, rng)
+        conic = "hyp" if hyper else "ell"
+        body = FakeBody(mu)
+        for ln, fa, fb, translated in edges:
+            if fa not in src:
+                continue
+            pyname = f"_{fa}_to_{fb}"
+            c = src[fa]
+            with np.errstate(all="ignore"):
+                real = getattr(Form, pyname)(np.array(c, dtype=float), body)
+            reqs.append(" ".join(["form", pyname[1:], f2b(mu)] + [f2b(v) for v in c]))
+            cond = 1.0
+            if hyper and fb == "keplerian_eccentric" and fa == "keplerian":
+                cond = max(1.0, 1e-3 * math.cosh(EH) ** 2)   # arctanh(t), t -> 1: one ulp of t moves H by 1e-16 cosh^2 H
+            meta.append(("edge-" + pyname[1:], [float(v) for v in real], fb, out_scales(fb, mu, a, src["cartesian"]), hyper, cond,
+                         {"edge": pyname, "mu": mu, "coord": c}))
+            qd = ""
+            if fa == "cartesian" and fb in ("spherical", "cylindrical"):
+                qd = "Q%d" % (int(c[0] < 0) + 2 * int(c[1] < 0))
+            out.count(key=reqs[-1], kind=pyname[1:] + "-" + conic, **({"m2e": branch(e, M)} if fa == "keplerian_mean" and fb == "keplerian_eccentric" else {}),
+                      **({"atan2_quadrant": qd} if qd else {}))
+        # API level: StateVector.copy(form=) along the unique tree path for a random pair
+        if it % 4 == 0:
+            fa, fb = rng.sample([f for f in FORMS if f in src], 2)
+            path = tree_path(names, hist, names.index(fa), names.index(fb))
+            meths = [f"{names[u]}_to_{names[w]}" for u, w in zip(path, path[1:])]
+            sv = StateVector(src[fa], date, fa, frs[k])
+            real_steps = [f"{x.name}_to_{y.name}" for x, y in sv.form.steps(fb)]
+            out.count(key=("route", fa, fb), kind="route")
+            if real_steps != meths:
+                out.fail("route-" + fa + "-" + fb, "Form.steps differs from the unique path of the regenerated forms tree", {"src": fa, "dst": fb}, observed=real_steps, expected=meths)
+                continue
+            with np.errstate(all="ignore"):
+                real = arr(sv.copy(form=fb))
+            reqs.append(" ".join(["walk", f2b(mu)] + [f2b(v) for v in src[fa]] + meths))
+            cond = max(1.0, 1e-3 * math.cosh(EH) ** 2) if hyper else 1.0
+            if len(meths) > 1:
+                cond *= 50.0 * max(1.0, 1e-3 / e) * (1 / (1 - e) if e < 1 else 1.0)
+            meta.append(("copy-" + fa + "-" + fb, [float(v) for v in real], fb, out_scales(fb, mu, a, src["cartesian"]), hyper, cond,
+                         {"copy": [fa, fb], "body": frs[k].center.body.name, "coord": src[fa]}))
+            out.count(key=reqs[-1], kind="copy-" + conic, hops=len(meths))
+    # M2E alone, all branches
+    for _ in range(ctx.n(3000, 100000)):
+        hyper = rng.random() < 0.5
+        e = (1.001 + rng.random() ** 2 * 18.999) if hyper else rng.uniform(1e-4, 0.99)
+        M, EH = gen_anomaly(rng, hyper, e)
+        with np.errstate(all="ignore"):
+            real = float(Form.M2E(e, M))
+        reqs.append(" ".join(["m2e", f2b(e), f2b(M)]))
+        meta.append(("m2e", real, None, None, hyper, 1.0, {"e": e, "M": M}))
+        out.count(key=reqs[-1], kind="m2e", m2e=branch(e, M), finite=math.isfinite(real))
+    # Infos
+    for _ in range(ctx.n(300, 5000)):
+        k, hyper, a, e, i, Om, om = gen_elements(rng)
+        mu = frs[k].center.body.mu
+        M, EH = gen_anomaly(rng, hyper, e)
+        nu = nu_from_anomaly(hyper, e, EH)
+        sv = StateVector(truth_cartesian(mu, a, e, i, Om, om, nu), date, "cartesian", frs[k])
+        inf = sv.infos
+        vals = []
+        for py, _ in INFOS:
+            try:
+                v = getattr(inf, py)
+                vals.append(float(v.total_seconds()) if hasattr(v, "total_seconds") else float(v))
+            except ValueError:
+                vals.append(None)
+        kep, r = inf.kep, float(inf.r)
+        reqs.append(" ".join(["infos", f2b(mu), f2b(r), f2b(kep.a), f2b(kep.e), f2b(kep.nu)]))
+        meta.append(("infos", vals, None, None, hyper, 1.0, {"body": frs[k].center.body.name, "r": r, "a": float(kep.a), "e": float(kep.e), "nu": float(kep.nu)}))
+        out.count(key=reqs[-1], kind="infos-" + ("hyp" if hyper else "ell"))
+    replies = core.Driver().run(reqs)
+    for req, (kind, real, form, scales, hyper, cond, inp), rep in zip(reqs, meta, replies):
+        if kind == "m2e":
+            if rep == "fuel":
+                if math.isfinite(real):
+                    out.fail("m2e-fuel", "the model's Kepler loop needs more than 10^4 iterations where the code returns", inp, observed=real, expected="fuel")
+                else:
+                    out.tally("m2e: code returns non-finite, model loop does not terminate (NaN never passes the exit test in Lean's Float either)")
+                continue
+            m = b2f(rep)
+            if not ((not math.isfinite(real) and not math.isfinite(m)) or abs(real - m) <= 1e-9 * max(1.0, abs(real))):
+                out.fail("m2e", "Form.M2E differs from the Lean model", inp, observed=real, expected=m)
+            continue
+        if rep in ("bad-op", "fuel"):
+            if rep == "fuel" and not all(math.isfinite(v) for v in real if v is not None):
+                out.tally("walk/edge: code returns non-finite, model loop runs out of fuel")
+                continue
+            out.fail(kind, "model rejected the request: " + rep, inp, observed=real, expected=rep)
+            continue
+        model = [b2f(s) for s in rep.split()]
+        if kind == "infos":
+            for (py, _), a_, b_ in zip(INFOS, real, model):
+                if a_ is None:
+                    continue
+                if not ((not math.isfinite(a_) and not math.isfinite(b_)) or abs(a_ - b_) <= 1e-9 * max(abs(a_), abs(b_)) + (1e-6 if py == "period" else 0)):
+                    out.fail("infos-" + py, f"infos.{py} differs from the Lean model", inp, observed=a_, expected=b_)
+            continue
+        cmp_vec(out, kind, kind, inp, real, model, form, scales, hyper, cond)
+        out.sample({"request": req[:100] + "…", "impl": real, "model": model}, limit=3)
+    return out
